@@ -35,6 +35,13 @@ def run(ck):
             except Exception as e:  # noqa
                 ck.count(("build-refused", i), nontrivial=False, bucket="construction refused")
                 continue
+            # sometimes the isotherm reaches its representation through a permanent conversion (labels left by convert_*: e.g. unit None for fraction)
+            if c["kind"] == "point" and c["units"]["loading_basis"] in ("molar", "mass") and c["adsorbate"] != "pgv_custom_gas" and rng.random() < 0.3:
+                try:
+                    iso.convert_loading(basis_to=rng.choice(["fraction", "percent"]))
+                    sig["via_conversion"] = True
+                except Exception:
+                    iso = isogen.build(pg, c)
             before = isogen.observe(pg, iso)
             id0 = iso.iso_id
             # ------------------------------------------------ export / import (string or file)
@@ -95,6 +102,26 @@ def run(ck):
             plan.append(("decode", c, after, sig, text))
             lines.append("encode " + json.dumps(_iso_json(before)))
             plan.append(("encode", c, text, sig, None))
+        # ------------------------------------------------ fitted models with a hidden temperature term (DR / DA) on isotherms stored in °C
+        for j in range(8 if thorough else 3):
+            name = rng.choice(["DR", "DA"])
+            t_c = rng.choice([-195.795, -185.85, 25.0])
+            rel = np.array(sorted(rng.uniform(1e-4, 0.95) for _ in range(14)))
+            nm, e_ = rng.uniform(2, 9), rng.uniform(4e3, 2e4)
+            load = nm * np.exp(-((-8.31446261815324 * (t_c + 273.15) * np.log(rel)) / e_) ** (2 if name == "DR" else 2.4))
+            try:
+                fit = pg.ModelIsotherm(pressure=rel, loading=load, model=name, material="pgv-synth", adsorbate="N2", temperature=t_c, temperature_unit="°C",
+                                       pressure_mode="relative", pressure_unit=None, loading_basis="molar", loading_unit="mmol", material_basis="mass", material_unit="g")
+                back = isotherm_from_json(isotherm_to_json(fit))
+            except Exception as e:  # noqa
+                ck.count(("fitted-skip", name, j), nontrivial=False, bucket="fitted DR/DA skipped: " + type(e).__name__)
+                continue
+            ck.count(("fitted", name, t_c, j), bucket="model:fitted " + name + " in °C")
+            grid = np.linspace(0.05, 0.9, 7)
+            a, b = np.asarray(fit.loading_at(grid), dtype=float), np.asarray(back.loading_at(grid), dtype=float)
+            if not np.allclose(a, b, rtol=1e-12, atol=0):
+                ck.fail_case({"class": "model", "clause": "model predictions differ after the round trip", "model": name, "fitted": True, "temperature_unit": "°C"},
+                             {"temperature": t_c, "before": a.tolist(), "after": b.tolist()})
     finally:
         for f in os.listdir(tmpdir):
             os.remove(os.path.join(tmpdir, f))
